@@ -868,12 +868,6 @@ func (s *stage) yield(c Case) bool {
 	return true
 }
 
-func (s *stage) done(what string) {
-	if !s.failed {
-		s.rec.Exhaustive(fmt.Sprintf("%s (%d cases)", what, s.n))
-	}
-}
-
 // longChains: synthetic chains around the maximum, in layouts/ and next to the page, ending,
 // closing into a cycle, or running into a missing file; the page naming the head or reaching
 // it through the default layout.
@@ -997,28 +991,31 @@ func TestProp(t *testing.T) {
 	_ = kf.Load() // no open finding restricts the generators of this property
 
 	shard, shards := run.Shard()
-	st := func(kind string) *stage { return &stage{rec: rec, kind: kind, shard: shard, shards: shards} }
 
-	// cheap, targeted stages first
-	s := st("long")
-	longChains(s)
-	s.done("synthetic chains of 6..150 layouts")
-
-	s = st("shape")
-	shapes(s)
-	s.done("chain shapes: lengths 0..5 x placements x endings x default/named")
-
+	// Stages run from cheap and targeted to expensive. Once a stage has failed, the violation is
+	// established (replay file written by run.Finish) and the later stages are skipped: with a
+	// broken termination rule every further cyclic case would cost the full open budget.
 	slots := []string{"layouts/a.vuego", "layouts/b.vuego", "pages/a.vuego", basePath}
 	if run.Thorough() {
 		slots = append(slots, "pages/b.vuego")
 	}
-	s = st("enum")
-	allGraphs(s, slots)
-	s.done(fmt.Sprintf("all layout graphs over %d layout files x 6 page options", len(slots)))
-
-	s = st("enumk")
-	allGraphsK(s)
-	s.done("all layout graphs over 3 files x 3 page options x all k-source subsets x 2 entry points")
+	for _, x := range []struct {
+		kind, what string
+		emit       func(*stage)
+	}{
+		{"long", "synthetic chains of 6..150 layouts", longChains},
+		{"shape", "chain shapes: lengths 0..5 x placements x endings x default/named", shapes},
+		{"enum", fmt.Sprintf("all layout graphs over %d layout files x 6 page options", len(slots)), func(s *stage) { allGraphs(s, slots) }},
+		{"enumk", "all layout graphs over 3 files x 3 page options x all k-source subsets x 2 entry points", allGraphsK},
+	} {
+		s := &stage{rec: rec, kind: x.kind, shard: shard, shards: shards}
+		x.emit(s)
+		if s.failed {
+			rec.Note("stage %s failed at case %d; later stages skipped", x.kind, s.n-1)
+			return
+		}
+		rec.Exhaustive(fmt.Sprintf("%s (%d cases)", x.what, s.n))
+	}
 
 	// random graphs over up to 6 files with spellings, collisions and long tails
 	run.Rapid(t, rec, "random", genCase, classify, check)
